@@ -29,6 +29,12 @@ impl Tier {
 
 pub const VERIF_ROOT: &str = "/verif";
 
+/// where evidence, replays, known findings and build products live: /verif, or the directory given in
+/// VERIF_OUT (background soak runs from a snapshot must not overwrite the evidence of the real checks)
+pub fn root() -> String {
+    std::env::var("VERIF_OUT").ok().filter(|s| !s.is_empty()).unwrap_or_else(|| VERIF_ROOT.to_string())
+}
+
 pub struct Ctx {
     pub prop: &'static str,
     pub tier: Tier,
@@ -224,7 +230,7 @@ pub struct KnownEntry {
 }
 impl Known {
     pub fn load() -> Known {
-        let p = format!("{}/known_findings.json", VERIF_ROOT);
+        let p = format!("{}/known_findings.json", root());
         let mut entries = vec![];
         if let Ok(s) = std::fs::read_to_string(&p) {
             if let Ok(v) = serde_json::from_str::<Value>(&s) {
@@ -404,7 +410,7 @@ where
 
 /// Write a replay file; returns its path.
 pub fn write_replay(ctx: &Ctx, kind: &str, case: &Value, fail: &FailInfo) -> String {
-    let dir = format!("{}/replays", VERIF_ROOT);
+    let dir = format!("{}/replays", root());
     let _ = std::fs::create_dir_all(&dir);
     let body = json!({
         "property": ctx.prop,
@@ -463,7 +469,7 @@ pub fn write_evidence(ctx: &Ctx, acc: &Accum, rule: &str, assumptions: &[&str], 
         "wall_s": ctx.start.elapsed().as_secs_f64(),
         "violations": violations,
     });
-    let dir = format!("{}/evidence", VERIF_ROOT);
+    let dir = format!("{}/evidence", root());
     let _ = std::fs::create_dir_all(&dir);
     let path = format!("{}/{}.json", dir, ctx.prop);
     let tmp = format!("{}.tmp.{}", path, std::process::id());
@@ -500,7 +506,7 @@ pub fn print_summary(ctx: &Ctx, acc: &Accum) {
 
 /// Regression replays committed for this property
 pub fn regress_files(prop: &str) -> Vec<String> {
-    let dir = format!("{}/replays/regress", VERIF_ROOT);
+    let dir = format!("{}/replays/regress", root());
     let mut v = vec![];
     if let Ok(rd) = std::fs::read_dir(&dir) {
         for e in rd.flatten() {
